@@ -24,6 +24,7 @@ func main() {
 	cfgFlag := flag.String("config", "", "internal: goos/goarch/tags of a child run")
 	emitJSON := flag.Bool("emit-json", false, "internal: print obligations as JSON (child of a thorough run)")
 	list := flag.Bool("list", false, "list claimed properties")
+	all := flag.Bool("all", false, "tooling: run every claimed property (quick tier) in one process on one load of the tree; prints 'RESULT <id> rc=<n>' per property")
 	flag.Parse()
 
 	if *list {
@@ -44,6 +45,9 @@ func main() {
 	}
 	if *replay != "" {
 		os.Exit(doReplay(*replay))
+	}
+	if *all {
+		os.Exit(runAll(seed))
 	}
 	if *prop == "" {
 		fmt.Fprintln(os.Stderr, "usage: mltlint -property Cnn [-tier quick|thorough] | -replay file | -list")
@@ -129,6 +133,43 @@ func main() {
 	}
 	out := core.Evaluate(ctx, known)
 	os.Exit(core.Emit(ctx, out, time.Since(t0).Seconds(), seed))
+}
+
+// runAll is a convenience for the seed/refactor tooling: one load, every
+// property, quick tier. The registered MANIFEST commands never use it.
+func runAll(seed int64) int {
+	p, err := core.Load(core.DefaultConfig)
+	if err != nil {
+		fmt.Printf("UNDECIDED load: %v\n", err)
+		return 2
+	}
+	known, err := core.LoadKnown()
+	if err != nil {
+		fmt.Printf("UNDECIDED known_findings.json unreadable: %v\n", err)
+		return 2
+	}
+	worst := 0
+	for _, id := range rules.IDs() {
+		fn, level, _ := rules.Lookup(id)
+		t0 := time.Now()
+		ctx := core.NewCtx(p, id, "quick")
+		ctx.Level = level
+		func() {
+			defer func() {
+				if r := recover(); r != nil {
+					ctx.Undecide("internal panic in checker: %v\n%s", r, firstLines(string(debug.Stack()), 14))
+				}
+			}()
+			fn(ctx)
+		}()
+		ctx.Saw("configurations", core.DefaultConfig.String())
+		rc := core.Emit(ctx, core.Evaluate(ctx, known), time.Since(t0).Seconds(), seed)
+		fmt.Printf("RESULT %s rc=%d\n", id, rc)
+		if rc > worst {
+			worst = rc
+		}
+	}
+	return worst
 }
 
 func thoroughConfigs() []core.Config {
